@@ -534,7 +534,13 @@ class Resource(object):
 
         # if isinstance(obj, Ecore.EProxy) and not obj.resolved:
         if not getattr(obj, 'resolved', True):
-            return (obj._proxy_path, True)
+            # writing a reference needs its target anyway (type, resource):
+            # the proxy is resolved first, so that the document does not
+            # depend on whether the reference had been followed before
+            try:
+                obj.force_resolve()
+            except Exception:
+                return (obj._proxy_path, True)
 
         if obj.eResource != self:
             eclass = obj.eClass
